@@ -26,6 +26,7 @@ E  errors.  Every malformed source M(k), every single-deviation token mutant of 
 from __future__ import annotations
 
 import itertools
+import json
 import re
 import warnings
 from typing import Any
@@ -37,6 +38,7 @@ from liquid.exceptions import LiquidError
 from mc import util as U
 from mc.core import Check
 from mc.core import Result
+from mc.core import jdumps
 from mc.gen import programs as P
 from mc.ref import c19_gen as G
 
@@ -111,7 +113,7 @@ def check_spans(res: Result, shape: list[Any], layout: str) -> None:
                     why = span_problems(sources, kind, v.segments[0], v.span)
                     if why:
                         res.violation({"clause": "span", "api": "analyze", "kind": kind, "layout": layout,
-                                       "template": v.span.template_name, "where": line_kind(src, v.span.index)},
+                                       "template": str(v.span.template_name), "where": line_kind(src, v.span.index)},
                                       f"{kind} {str(v)!r}: {why}; main = {src!r}", case)
         for kind in ("filters", "tags"):
             for name, spans in getattr(a, kind).items():
@@ -120,7 +122,7 @@ def check_spans(res: Result, shape: list[Any], layout: str) -> None:
                     why = span_problems(sources, kind, name, sp)
                     if why:
                         res.violation({"clause": "span", "api": "analyze", "kind": kind, "name": name, "layout": layout,
-                                       "template": sp.template_name},
+                                       "template": str(sp.template_name)},
                                       f"{kind} {name!r}: {why}; main = {src!r}", case)
     else:
         res.count("analysis_raised")
@@ -347,6 +349,12 @@ class C20(Check):
         return sh
 
     def run_shard(self, shard: Any, tier: str) -> Result:
+        res = self._run_shard(shard, tier)
+        # liquid hands out str subclasses (Identifier) as template names: keep only plain JSON types in the result
+        res.violations = json.loads(jdumps(res.violations))
+        return res
+
+    def _run_shard(self, shard: Any, tier: str) -> Result:
         res = Result()
         kind = shard[0]
         if kind == "S":
@@ -378,10 +386,10 @@ class C20(Check):
         res = Result()
         if case["part"] == "S":
             check_spans(res, case["shape"], case["layout"])
-            return res.violations
+            return json.loads(jdumps(res.violations))
         if case["part"] == "T":
             check_partial_tags(res, case["layout"])
-            return res.violations
+            return json.loads(jdumps(res.violations))
         # the layout only selects the partials of the loader; errors of from_string never involve them
         return error_case(env_for("plain"), case["source"])[1]
 
